@@ -1488,7 +1488,11 @@ impl HelperAttributeForDefault {
         }
     }
     fn value(&self, ty: &Type) -> Option<TokenStream> {
-        fn need_into(e: &Expr) -> bool {
+        fn need_into(mut e: &Expr) -> bool {
+            // An expression that comes out of a `macro_rules!` `$e:expr` fragment is wrapped in an invisible group.
+            while let Expr::Group(g) = e {
+                e = &g.expr;
+            }
             // Because `into` may prevent type inference, use `into` only in the following expressions.
             matches!(
                 e,
